@@ -184,6 +184,10 @@ func (c *Cluster) constructFiles(n *Node) (raft.Log, raft.StateStorage, raft.Sna
 	return &FileLog{real: lg, mirror: n.Log, c: c, node: n.Idx}, &FileState{real: st, mirror: n.St, dir: dir}, fs, nil
 }
 
+// ArmFs is the ArmSpec phase of a crash armed on the real storages: it fires
+// at a mutating file-system call instead of a storage-interface boundary.
+const ArmFs = 2
+
 // CrashPlan arms a crash of one node at its k-th mutating file-system call.
 type CrashPlan struct {
 	Node    int
@@ -227,6 +231,25 @@ func (c *Cluster) InstallIntercept(plan *CrashPlan) {
 			}
 			if plan.Partial >= 0 && call.Op == "Write" {
 				return plan.Partial
+			}
+			return vos.Deny
+		}
+		// exploration: a crash armed by an "arm" event fires before the node's
+		// (Skip+1)-th next mutating call
+		if a := c.Armed[call.Node]; a != nil && a.Phase == ArmFs {
+			if a.Skip > 0 {
+				a.Skip--
+				return vos.Proceed
+			}
+			delete(c.Armed, call.Node)
+			dead[k] = true
+			c.PlannedDead[k] = true
+			c.CrashedAt = fmt.Sprintf("%s %s (armed, n%d)", call.Op, filepath.Base(call.Path), call.Node)
+			if vsched.Cur() != nil {
+				c.crashQ = append(c.crashQ, call.Node)
+				vsched.Interrupt()
+			} else {
+				c.ctlCrash = true
 			}
 			return vos.Deny
 		}
